@@ -2,8 +2,15 @@ import ColoVerif.Model.Circuit
 import ColoVerif.Gen.OrientTables
 import ColoVerif.Model.OrientRule
 import ColoVerif.Model.LegacyOrientRule
+import ColoVerif.Properties.C01
+import ColoVerif.Proofs.OrientLegalize
+import ColoVerif.Proofs.OrientDetailed
 /-
-C04 — row polarity and orientation constraints: the table-level theorems.
+C04 — row polarity and orientation constraints: the table-level theorems, and (second half of the
+file) the two algorithm clauses `legalize_orient` / `detailed_orient` over the executable models of
+legalization (`Model/Legalize.lean`, tied to the C++ by the C01 stream) and of detailed placement
+(`Model/DetPlace.lean`, tied by the C02 primitives stream and history replay).  Helper lemmas:
+`Proofs/OrientLegalize.lean`, `Proofs/OrientDetailed.lean`.
 
 `ColoVerif.Gen.*` is regenerated from /repo's C++ on every run (tools/gen/OrientTables.py),
 so every theorem below is re-checked against what the source says now: a changed table entry
@@ -198,5 +205,313 @@ circuit of corpus/C04 — ends with `CellOrientation::INVALID`; the fixed guard 
 theorem detailed_orient_fails_unfixed :
     legacyRowAllowed .NW .FS = true ∧ assignedOrientation .NW .FS .N = .INVALID ∧ rowAllowed .NW .FS = false := by
   decide
+
+/-! ### the algorithms: legalization
+
+Model `Legalize` (the definitions `drv_C01` executes; `tetrisPerSegmentOrientation = true`, i.e. the
+tree with `fix: c04-tetris-row-orientation`).  The model's `cellOrientationInRow` is the generated
+table (`gen_tables_eq_model`). -/
+
+section LegalizeOrient
+open Legalize
+
+/-- `r` is the free row segment (`computeRows`: the rows minus the fixed obstructions) under the
+bottom edge of `cl`: it starts at the cell's y and contains the cell's x-range -/
+def UnderBottom (c : Circuit) (cl : Cell) (r : Row) : Prop :=
+  r ∈ c.computeRows ∧ r.rect.minY = cl.y ∧ r.rect.minX ≤ cl.x ∧ cl.x + cl.placedWidth ≤ r.rect.maxX
+
+/-- **C04, legalization clause (full).**  For every circuit of the C01 domain, every rounding of the
+ordering key and all parameters: whenever legalization returns normally,
+
+* every movable cell of the result that declares a polarity sits on the bottom edge of exactly one
+  free row segment `r` (`UnderBottom`, unique); that segment is not forbidden for its polarity
+  (`cellOrientationInRow pol r.orient ≠ INVALID`), the cell's orientation is not INVALID, and it is
+  exactly `cellOrientationInRow pol r.orient` as soon as the row has an orientation (for a row whose
+  orientation is the marker UNKNOWN a SAME cell is left as it was — that is what `getOrientation`
+  does; rows N/S/FN/FS: `legalize_orient_oriented_rows`);
+* every movable cell without polarity (ANY) has the orientation it had in the input (cell by cell,
+  in the order of the circuit).
+
+Proof (Proofs/OrientLegalize.lean): Abacus — `writeRows` gives a cell the orientation of the segment
+that lists it, a cell is listed only in the `bestRow` of `placeCell`, which `evaluatePlacement`
+accepted (INVALID refused), and `check()` certifies the cell is inside that segment; Tetris —
+`attemptPlacement` only returns positions inside a segment with a valid orientation, and because
+the segments are sorted by (minY, minX) and disjoint the `while` loop of `placeCell` stops at
+exactly that segment; sub-segments of `remainingRows` have the orientation of the `computeRows`
+segment they are cut from; export writes the status of the m-th movable cell to the m-th movable cell. -/
+theorem legalize_orient (rnd : Rat → Rat) (p : Params) (c c' : Circuit) (hd : C01.Dom c)
+    (h : legalizeWith rnd p c = .ok c') :
+    (∀ cl ∈ c'.cells, cl.fixed = false → cl.pol ≠ Polarity.ANY →
+      ∃ r, UnderBottom c' cl r ∧ (∀ r', UnderBottom c' cl r' → r' = r) ∧
+        cellOrientationInRow cl.pol r.orient ≠ Orient.INVALID ∧ cl.orient ≠ Orient.INVALID ∧
+        (r.orient ≠ Orient.UNKNOWN → cl.orient = cellOrientationInRow cl.pol r.orient)) ∧
+    Pointwise (fun a b => a.fixed = false → a.pol = Polarity.ANY → b.orient = a.orient) c.cells c'.cells := by
+  obtain ⟨hrows, hpw⟩ := legalizeWith_orient rnd p c c' hd h
+  have hH : 0 < (Circuit.rowHeight c).getD 0 := hd.1
+  have hRc := dom_rowsOK c hd
+  constructor
+  · intro cl hcl hfx hpol
+    obtain ⟨a, _, hab⟩ := pointwise_mem_right hpw cl hcl
+    have haf : a.fixed = false := by
+      cases hf : a.fixed with
+      | false => rfl
+      | true =>
+        have := hab.1 hf
+        rw [this, hf] at hfx
+        cases hfx
+    obtain ⟨_, hp, hw, hwpos, r, hr, g1, g2, g3, ho, hni⟩ := hab.2 haf
+    rw [← hp] at ho
+    refine ⟨r, ⟨by rw [hrows]; exact hr, g1, g2, g3⟩, ?_, ?_, hni, ?_⟩
+    · rintro r' ⟨m1, m2, m3, m4⟩
+      rw [hrows] at m1
+      exact seg_unique _ hH _ hRc r r' hr m1 cl.x cl.placedWidth cl.y (by rw [hw]; exact hwpos)
+        ⟨g1, g2, g3⟩ ⟨m2, m3, m4⟩
+    · intro hinv
+      rw [hinv] at ho
+      simp only [reduceCtorEq, if_false] at ho
+      exact hni ho
+    · intro hro
+      rw [if_neg (DetPlace.table_known cl.pol r.orient hpol hro)] at ho
+      exact ho
+  · refine hpw.imp ?_
+    intro a b hab hfx hany
+    obtain ⟨_, _, _, _, r, _, _, _, _, ho, _⟩ := hab.2 hfx
+    rw [hany] at ho
+    simpa [cellOrientationInRow] using ho
+
+/-- the same for `Circuit::legalize` as compiled (binary32 ordering key) -/
+theorem legalize_orient_compiled (p : Params) (c c' : Circuit) (hd : C01.Dom c) (h : legalize p c = .ok c') :
+    (∀ cl ∈ c'.cells, cl.fixed = false → cl.pol ≠ Polarity.ANY →
+      ∃ r, UnderBottom c' cl r ∧ (∀ r', UnderBottom c' cl r' → r' = r) ∧
+        cellOrientationInRow cl.pol r.orient ≠ Orient.INVALID ∧ cl.orient ≠ Orient.INVALID ∧
+        (r.orient ≠ Orient.UNKNOWN → cl.orient = cellOrientationInRow cl.pol r.orient)) ∧
+    Pointwise (fun a b => a.fixed = false → a.pol = Polarity.ANY → b.orient = a.orient) c.cells c'.cells :=
+  legalize_orient f32 p c c' hd h
+
+/-- **The property's quantifier (rows with an orientation, e.g. N/S/FN/FS).**  If no row of the
+circuit has the marker UNKNOWN as orientation, every polarised movable cell of the result has
+exactly `cellOrientationInRow pol (orientation of the segment under its bottom edge)` — in terms of
+the table generated from the C++ — and that is one of the eight real orientations. -/
+theorem legalize_orient_oriented_rows (rnd : Rat → Rat) (p : Params) (c c' : Circuit) (hd : C01.Dom c)
+    (hro : ∀ r ∈ c.rows, r.orient ≠ Orient.UNKNOWN) (h : legalizeWith rnd p c = .ok c') :
+    ∀ cl ∈ c'.cells, cl.fixed = false → cl.pol ≠ Polarity.ANY →
+      ∃ r, UnderBottom c' cl r ∧ cl.orient = Gen.cellOrientationInRow cl.pol r.orient ∧ IsEight cl.orient := by
+  intro cl hcl hfx hpol
+  obtain ⟨r, hu, _, hinv, _, heq⟩ := (legalize_orient rnd p c c' hd h).1 cl hcl hfx hpol
+  have hr : r.orient ≠ Orient.UNKNOWN := by
+    have hrows : c'.rows = c.rows := ((C01.legalize_error_or_all rnd p c).2.2 c' h).1
+    have hm := hu.1
+    simp only [Circuit.computeRows, List.mem_flatMap, Row.freespace, List.mem_map] at hm
+    obtain ⟨r0, hr0, iv, _, rfl⟩ := hm
+    rw [hrows] at hr0
+    exact hro r0 hr0
+  have e := heq hr
+  refine ⟨r, hu, by rw [gen_tables_eq_model.2.2.1]; exact e, ?_⟩
+  rw [e]
+  revert hinv hr hpol
+  generalize cl.pol = q
+  generalize r.orient = o
+  cases q <;> cases o <;> decide
+
+/-- non-vacuity: two rows (N below FS), the lower one split by a fixed obstruction; an NW cell whose
+target is on the FS row, an SE cell whose target is on the N row, an OPPOSITE cell, a cell without
+polarity oriented S, and a two-row SAME cell.  Legalization returns; NW ends on the N row as N, SE on
+the FS row as FS, OPPOSITE on the N row as FS, the ANY cell (moved) is still S. -/
+def legCircuit : Circuit :=
+  { cells := [⟨2, 2, 0, 2, .N, false, false, .NW⟩, ⟨2, 2, 0, 0, .N, false, false, .SE⟩,
+              ⟨2, 2, 4, 0, .N, false, false, .OPPOSITE⟩, ⟨2, 2, 6, 2, .S, false, false, .ANY⟩,
+              ⟨3, 4, 7, 0, .N, false, false, .SAME⟩, ⟨1, 2, 3, 0, .N, true, true, .ANY⟩],
+    nets := [],
+    rows := [⟨⟨0, 12, 0, 2⟩, .N⟩, ⟨⟨0, 12, 2, 4⟩, .FS⟩] }
+
+example : C01.Dom legCircuit ∧ (∀ r ∈ legCircuit.rows, r.orient ≠ Orient.UNKNOWN) := by decide
+example : ((legalize LegacyLegalize.defaultParams legCircuit).toOption.map
+    fun c' => c'.cells.map fun cl => (cl.x, cl.y, cl.orient)) =
+    some [(0, 0, .N), (0, 2, .FS), (4, 0, .FS), (5, 2, .S), (7, 0, .N), (3, 0, .N)] := by decide +kernel
+
+/-- rows and cell of corpus/C04 witness w1 -/
+def w1Rows : List Row := [⟨⟨0, 5, 0, 2⟩, .N⟩, ⟨⟨5, 20, 0, 2⟩, .S⟩, ⟨⟨0, 20, 2, 4⟩, .N⟩]
+def w1Cell : LCell := ⟨3, 4, .SAME, 10, 0, .N⟩
+
+/-- **Pre-fix witness (Tetris, corpus/C04 w1).**  Before `fix: c04-tetris-row-orientation`
+`TetrisLegalizer::placeCell` took the orientation of the *first* segment at the chosen y
+(`closestRow(y)`, the `else` branches `attemptFirstSeg` / `startRow` kept in the model): on the rows
+`[0,5)` N, `[5,20)` S, `[0,20)` N above, the two-row SAME cell with target (10, 0) is offered x = 10
+— inside the S segment — and receives N, not `cellOrientationInRow SAME S = S`; the fixed code finds
+segment 1 and assigns S. -/
+theorem tetris_orient_fails_unfixed :
+    attemptFirstSeg (Tetris.init w1Rows) w1Cell 0 = some 10 ∧
+    getOrientation (Tetris.init w1Rows).rows w1Cell (startRow (Tetris.init w1Rows).rows 0) = Orient.N ∧
+    orientRow (Tetris.init w1Rows).rows 10 0 = 1 ∧
+    (tetrisPlace (Tetris.init w1Rows) w1Cell).2 = ⟨10, 0, cellOrientationInRow .SAME .S, true⟩ ∧
+    cellOrientationInRow .SAME .S ≠ Orient.N := by
+  decide +kernel
+
+end LegalizeOrient
+
+/-! ### the algorithms: detailed placement
+
+Model `DetPlace` (the definitions `drv_C02` executes and the history replay of hook H3 re-runs), with
+`isRowAllowed` of `fix: c04-invalid-rows`.  `Inv` (C02) is every test of `DetailedPlacement::check()`
+— including the orientation test — plus orientation ≠ INVALID; `C02.inv_run` proves it for every
+state reached by any sequence of swap / insert / shift / reorder moves. -/
+
+section DetailedOrient
+open DetPlace DetPlace.State
+
+/-- what C04 demands of a state of detailed placement: every optimised (not ignored) cell is linked
+in a valid row segment whose y is the cell's y (the row its bottom edge sits on), that segment is
+allowed for its polarity, its orientation is not INVALID, and if it declares a polarity it has
+exactly the orientation the table prescribes for that segment (as soon as the segment has an
+orientation) -/
+def DetOrientOK (s : State) : Prop :=
+  ∀ c : Int, s.validCell c → s.isIgnored c = false →
+    s.row c ≠ -1 ∧ s.validRow (s.row c) ∧ s.y c = s.rowY (s.row c) ∧
+    s.isRowAllowed c (s.row c) = true ∧ s.orient c ≠ Orient.INVALID ∧
+    (s.pol c ≠ Polarity.ANY → s.rowOrient (s.row c) ≠ Orient.UNKNOWN →
+      s.orient c = cellOrientationInRow (s.pol c) (s.rowOrient (s.row c)))
+
+/-- **Orientation is part of the invariant.**  In any state satisfying `Inv` — also the transient
+ones inside a move, where some cells are unplaced — every *placed* cell is an optimised cell at the
+y of its segment, the segment is allowed for its polarity (never a forbidden row), the orientation is
+not INVALID and is the prescribed one for a declared polarity. -/
+theorem detailed_orient_placed {s : State} (h : Inv s) {c : Int} (hc : s.validCell c) (hp : s.row c ≠ -1) :
+    s.validRow (s.row c) ∧ s.isIgnored c = false ∧ s.y c = s.rowY (s.row c) ∧
+    s.isRowAllowed c (s.row c) = true ∧ s.orient c ≠ Orient.INVALID ∧
+    (s.pol c ≠ Polarity.ANY → s.rowOrient (s.row c) ≠ Orient.UNKNOWN →
+      s.orient c = cellOrientationInRow (s.pol c) (s.rowOrient (s.row c))) :=
+  inv_orient h hc hp
+
+/-- **C04, detailed-placement clause (full over the model).**  From any state that satisfies `Inv`
+and has every optimised cell placed (what the constructor `fromIspdCircuit` returns: it ends with
+`check()`; the driver evaluates the decidable `Inv` on every instance), for every history of moves
+with arbitrary arguments that the code performs without throwing: the final state — what
+`placeDetailed` exports on return — and the state after every prefix of the history — in particular
+every state exposed to a `PlacementStep::Detailed` callback — satisfy `DetOrientOK`. -/
+theorem detailed_orient {s t : State} {ops : List Op} (hi : Inv s) (hp : s.allPlaced = true)
+    (e : s.run ops = .ok t) :
+    DetOrientOK t ∧ ∀ ops1 ops2, ops = ops1 ++ ops2 → ∃ u, s.run ops1 = .ok u ∧ DetOrientOK u := by
+  have key : ∀ (u : State) (l : List Op), s.run l = .ok u → DetOrientOK u := by
+    intro u l el c hc hig
+    have hiu := run_inv hi el
+    have hpu := (allPlaced_iff u).1 (run_allPlaced el hp) c hc (by simpa [isIgnored] using hig)
+    obtain ⟨a1, _, a3, a4, a5, a6⟩ := inv_orient hiu hc hpu
+    exact ⟨hpu, a1, a3, a4, a5, a6⟩
+  refine ⟨key t ops e, ?_⟩
+  intro ops1 ops2 hops
+  subst hops
+  obtain ⟨u, e1, _⟩ := run_prefix ops1 ops2 e
+  exact ⟨u, e1, key u ops1 e1⟩
+
+/-- **Cells without polarity, ignored cells.**  Along every history polarities never change, a cell
+without polarity (ANY) keeps the orientation it had (`place` writes `cellOrientation_` only when the
+table answers something else than the keep marker UNKNOWN), and a cell detailed placement does not
+optimise (fixed, multi-row, macro: width −1) keeps orientation and position. -/
+theorem detailed_orient_kept {s t : State} {ops : List Op} (e : s.run ops = .ok t) :
+    t.pol = s.pol ∧ (∀ d, s.pol d = Polarity.ANY → t.orient d = s.orient d) ∧
+    (∀ d, s.isIgnored d = true → t.orient d = s.orient d ∧ t.x d = s.x d ∧ t.y d = s.y d) := by
+  have k := run_keep e
+  have f := run_frame e
+  refine ⟨k.pol, k.any, fun d hd => ?_⟩
+  have := f.2 d (by simpa [isIgnored] using hd)
+  exact ⟨this.2.2, this.1, this.2.1⟩
+
+/-- … and primitive by primitive: `unplace`, `place`, and each optimiser move (`swap`, `insert`,
+`shift`, `RowReordering::writeback`) leave the orientation of every cell without polarity as it was -/
+theorem detailed_any_kept_by_primitives :
+    (∀ (s : State) (c d : Int), s.pol d = Polarity.ANY → (s.unplace c).orient d = s.orient d) ∧
+    (∀ (s t : State) (c r p x d : Int), s.place c r p x = .ok t → s.pol d = Polarity.ANY → t.orient d = s.orient d) ∧
+    (∀ (s t : State) (op : Op) (d : Int), s.step op = .ok t → s.pol d = Polarity.ANY → t.orient d = s.orient d) :=
+  ⟨fun s c d h => (unplace_keep s c).any d h, fun _ _ _ _ _ _ d e h => (place_keep e).any d h,
+   fun _ _ _ d e h => (step_keep e).any d h⟩
+
+/-- **The detailed-placement clause in circuit terms.**  Let `s` be the state `fromIspdCircuit`
+builds from circuit `c` and `t` any state a history of moves reaches from it (same hypotheses as
+`detailed_orient`).  The circuit exposed at `t` (`exportPlacement t c`, what a callback and the
+caller of `placeDetailed` see) differs from `c`, for its `i`-th cell `cl` if movable, as follows:
+polarity kept; without polarity the orientation is the one of `c`; a cell that is not one row high
+(not optimised) keeps its orientation; a one-row-high cell is linked in the valid segment
+`t.row i` of the row segments — unchanged: the sorted free segments of the circuit's rows minus
+fixed obstructions and multi-row cells —, its y is that segment's y, the segment is not forbidden
+for its polarity, its orientation is not INVALID and — with a polarity, on a segment that has an
+orientation — it is exactly `cellOrientationInRow pol (segment orientation)`. -/
+theorem detailed_orient_exported (c : Circuit) (s t : State) (ops : List Op)
+    (e0 : fromIspdCircuit c = .ok s) (hi : Inv s) (hp : s.allPlaced = true) (e : s.run ops = .ok t) :
+    (∃ h, c.rowHeight = some h ∧ t.rows = DetPlace.sortRows (c.computeRows
+      ((c.cells.filter fun cl => !cl.fixed && cl.placedHeight ≠ h).map Cell.placement))) ∧
+    ∀ (i : Nat) (cl : Cell), c.cells[i]? = some cl → cl.fixed = false →
+      ∃ cl', (exportPlacement t c).cells[i]? = some cl' ∧ cl'.pol = cl.pol ∧
+        (cl.pol = Polarity.ANY → cl'.orient = cl.orient) ∧
+        (c.rowHeight ≠ some cl.placedHeight → cl'.orient = cl.orient) ∧
+        (c.rowHeight = some cl.placedHeight → cl.placedWidth ≠ -1 →
+          t.validRow (t.row (Int.ofNat i)) ∧ cl'.y = t.rowY (t.row (Int.ofNat i)) ∧
+          cellOrientationInRow cl.pol (t.rowOrient (t.row (Int.ofNat i))) ≠ Orient.INVALID ∧
+          cl'.orient ≠ Orient.INVALID ∧
+          (cl.pol ≠ Polarity.ANY → t.rowOrient (t.row (Int.ofNat i)) ≠ Orient.UNKNOWN →
+            cl'.orient = cellOrientationInRow cl.pol (t.rowOrient (t.row (Int.ofNat i))))) := by
+  obtain ⟨h, hrh, hn, hrows, hf⟩ := fromIspd_fields c s e0
+  have k := run_keep e
+  have f := run_frame e
+  have hD := (detailed_orient hi hp e).1
+  refine ⟨⟨h, hrh, by rw [k.rows, hrows]⟩, ?_⟩
+  intro i cl hcl hfx
+  obtain ⟨hpol, hor, hw⟩ := hf i cl hcl
+  have hex := export_cell t c i cl hcl
+  simp only [hfx, Bool.false_eq_true, if_false] at hex hw
+  refine ⟨_, hex, rfl, ?_, ?_, ?_⟩
+  · intro hany
+    show t.orient (Int.ofNat i) = cl.orient
+    rw [k.any _ (by rw [hpol]; exact hany), hor]
+  · intro hne
+    show t.orient (Int.ofNat i) = cl.orient
+    have hne' : cl.placedHeight ≠ h := by
+      intro he; apply hne; rw [hrh, he]
+    rw [if_pos hne'] at hw
+    rw [(f.2 _ hw).2.2, hor]
+  · intro heq hwne
+    have hh : cl.placedHeight = h := by
+      rw [hrh] at heq; injection heq with heq; exact heq.symm
+    rw [if_neg (by simp [hh])] at hw
+    have hvc : t.validCell (Int.ofNat i) := by
+      have := (List.getElem?_eq_some_iff.mp hcl).1
+      unfold validCell
+      rw [k.nCells, hn]
+      simp only [Int.ofNat_eq_natCast]
+      omega
+    have hig : t.isIgnored (Int.ofNat i) = false := by
+      simp only [isIgnored, k.width, hw]
+      simpa using hwne
+    obtain ⟨_, a1, a2, a3, a4, a5⟩ := hD _ hvc hig
+    have hpt : t.pol (Int.ofNat i) = cl.pol := by rw [k.pol, hpol]
+    rw [hpt] at a5
+    have a3' : cellOrientationInRow cl.pol (t.rowOrient (t.row (Int.ofNat i))) ≠ Orient.INVALID := by
+      unfold isRowAllowed at a3
+      rw [hpt] at a3
+      simpa using a3
+    exact ⟨a1, a2, a3', a4, a5⟩
+
+/-- non-vacuity: two rows (N below FS); an NW cell and a cell without polarity oriented S on the N
+row, a SAME cell on the FS row, an ignored two-row cell.  The constructor's state satisfies `Inv`
+with every optimised cell placed; a history of all four kinds of moves runs and ends with the SAME
+cell on the N row re-oriented N, the ANY cell on the FS row still S, the NW cell on the N row;
+inserting the NW cell into the FS row is refused (the C++ `insert` throws: `canInsert` is false). -/
+def detTiny : Circuit :=
+  { cells := [⟨2, 2, 0, 0, .N, false, false, .NW⟩, ⟨3, 2, 4, 0, .S, false, false, .ANY⟩,
+              ⟨2, 2, 1, 2, .FS, false, false, .SAME⟩, ⟨2, 4, 8, 0, .N, false, false, .ANY⟩],
+    nets := [],
+    rows := [⟨⟨0, 10, 0, 2⟩, .N⟩, ⟨⟨0, 10, 2, 4⟩, .FS⟩] }
+
+def detOps : List Op :=
+  [.swap 0 1, .insert 2 0 0, .shift [(2, 6)], .reorder [1, 0] [⟨0, -1, [(0, 0), (1, 2)]⟩], .insert 1 1 (-1)]
+
+example : (match fromIspdCircuit detTiny with
+           | .ok s => decide (Inv s) && s.allPlaced && s.isIgnored 3 &&
+                      (match s.run detOps with
+                       | .ok t => ([0, 1, 2] : List Int).map (fun i => (t.row i, t.orient i)) == [(0, .N), (1, .S), (0, .N)]
+                       | .error _ => false) &&
+                      (match s.step (.insert 0 1 (-1)) with | .error .runtime => true | _ => false)
+           | .error _ => false) = true := by decide
+
+end DetailedOrient
 
 end ColoVerif.C04
